@@ -12,6 +12,13 @@ pub mod h_swar;
 pub mod h_float_tok;
 pub mod h_special;
 #[cfg(not(feature = "compact"))]
+pub mod h_dragonbox;
+#[cfg(feature = "format")]
+pub mod h_sep;
+pub mod h_facade;
+#[cfg(not(feature = "compact"))]
+pub mod h_float_emit;
+#[cfg(not(feature = "compact"))]
 pub mod h_lemire;
 #[cfg(feature = "format")]
 pub mod h_float_fmt;
@@ -31,6 +38,13 @@ pub fn all_harnesses() -> Vec<Harness> {
     v.extend_from_slice(h_swar::HARNESSES);
     v.extend_from_slice(h_float_tok::HARNESSES);
     v.extend_from_slice(h_special::HARNESSES);
+    #[cfg(not(feature = "compact"))]
+    v.extend_from_slice(h_dragonbox::HARNESSES);
+    #[cfg(feature = "format")]
+    v.extend_from_slice(h_sep::HARNESSES);
+    v.extend_from_slice(h_facade::HARNESSES);
+    #[cfg(not(feature = "compact"))]
+    v.extend_from_slice(h_float_emit::HARNESSES);
     #[cfg(feature = "format")]
     v.extend_from_slice(h_special::fmt::HARNESSES);
     #[cfg(not(feature = "compact"))]
